@@ -17,6 +17,12 @@ CHECKS = {
         "text": "TLC enumerates every registration of a bounded token-class universe with the target it must denote or the verdict 'inexpressible'; each is pushed through the real generator and the real parser and the resulting table is compared field by field (service, prefix, protocol/address, weight, tags, options), an inexpressible one must produce no command. That one bad registration never blocks others is the invariant Isolation of ControlPlane, checked on every interleaving, and is bound to the code by running the real consul backend and update loop against a fake Consul whose 'bad' instances carry inexpressible tag sets taken from the same enumeration.",
         "note": "Bounded token classes (3 names, 3 address forms, 6 prefixes, <=2/3 of 15 options with one option per key, <=2 of 4 other tags). Out of scope (statement silent): malformed redirect option, tags with commas/white space, redirect combined with proto. Trusts TLC, the harness's CatalogService construction, Go toolchain.",
     },
+    "C02": {
+        "category": MC,
+        "technique": "TLA+ specs UpdateLoop (Same/Reject/Install, no crash action), TableSwap (atomic register, split invocation/linearization/response) and RouteHostile (grammar over hostile tokens) checked/enumerated by TLC; update sequences replayed into the real main.watchBackend and custom backend, hostile scripts into NewTable/NewTableCustom + lookups, concurrent swap/lookup runs recorded under -race and validated by TLC (linearizability)",
+        "text": "LastGood/InvalidKeeps/NextValidApplied are decided exhaustively on the update-loop model; every update sequence of the bounded alphabet is then driven through the real update loop (scripted registry backend: both channels; real custom backend polling a scripted HTTP endpoint) and the active table compared after every message, a crash of the loop being a violation. 'No text can crash the process' is bound by enumerating the command grammar over hostile token classes (non-finite/denormal/huge weights, bad globs and URLs, 64 KiB tokens) and running every script through both table constructors followed by lookups with all matchers and pickers. Atomicity is a linearizability check: recorded executions of 8 concurrent readers (3 probes per loaded table) against a writer alternating two distinguishable tables must be accepted by TableSwap_Trace, built with the race detector.",
+        "note": "Bounded alphabets (4 service texts, 3 manual texts, 7 poll answers; sequences of 4-5 / 3-4 messages), 11k-23k hostile scripts, 2-10 recorded runs of about 1000 events. Texts used as 'invalid' are grammar-level syntax errors, verified by the harness to be rejected on their own. Trusts TLC, the Go race detector, the duplicate-send barrier.",
+    },
     "C05": {
         "category": MC,
         "technique": "TLA+ spec RouteLang model-checked with TLC; every examined transition and seeded simulation behaviours replayed into route.NewTable/NewTableCustom/Table.String (model-based conformance)",
